@@ -72,8 +72,8 @@ def run_solve(c):
         return [({k: int(v) for k, v in d.items()}, pyint(ov), int(sc)) for d, ov, sc in out]
     return m, objs, rs, observe(call)
 
-def run_select(c):
-    cfg = build(c["model"])
+def run_select(c, cfg=None):
+    cfg = build(c["model"]) if cfg is None else cfg
     rs = RecordingSolver(script_fn(c["script"]))
     prios = [mapping_kind(dict((k, typed_weight(k, v)) for k, v in o)) for o in c["prios"]]
     with CompressRecorder() as cr:
@@ -239,6 +239,94 @@ def oracle_select(c, info=None):
             if bad:
                 return bad
     return None
+
+# ----------------------------------------------------------------------------- one process, shared proposition objects
+def untagged_twin(ast):
+    """the configurator of the same rules without any default; the rule / alternative ASTs are the SAME objects, so that with one
+    build memo the two configurators share their Python proposition objects (as two configurators of one application do)"""
+    return dict(ast, ch=[({k: v for k, v in r.items() if k != "default"} if isinstance(r, dict) and r.get("default") else r) for r in ast.get("ch", [])])
+
+def subst(ast, shared):
+    """the AST with every {"k": "ref"} replaced by the one `shared` AST object (build() memoises by AST object: one Python object)"""
+    if not isinstance(ast, dict):
+        return ast
+    if ast.get("k") == "ref":
+        return shared
+    return dict(ast, ch=[subst(x, shared) for x in ast["ch"]]) if "ch" in ast else ast
+
+def oracle_shared(c):
+    """select() on a configurator whose proposition objects are also part of another configurator that was used before:
+    the vectors the solver receives are those the same configurator built from fresh objects gives (the objective is a
+    function of configurator and priorities, not of what other models did with the shared objects)"""
+    memo = {}
+    a1 = subst(c["first"], c.get("shared"))
+    a2 = untagged_twin(a1) if c.get("second") is None else subst(c["second"], c.get("shared"))
+    first = build(a1, memo)
+    second = build(a2, memo)
+    order = [first, second] if c["first_used_first"] else [second, first]
+    got = []
+    for cfg in order:
+        _, _, rs, _, r = run_select(dict(c, model=None), cfg)
+        got.append(([[int(x) for x in np.asarray(v).tolist()] for v in rs.calls[0][1]] if len(rs.calls) == 1 else None, r))
+    got = dict(zip(("first", "second") if c["first_used_first"] else ("second", "first"), got))
+    for name, ast in (("first", a1), ("second", a2)):
+        _, _, rs, _, r = run_select(dict(c, model=json.loads(json.dumps(ast_json(ast)))))
+        want = ([[int(x) for x in np.asarray(v).tolist()] for v in rs.calls[0][1]] if len(rs.calls) == 1 else None, r)
+        if got[name] != want:
+            return (f"the {name} of two configurators that share proposition objects hands the solver {got[name][0]} (result {str(got[name][1])[:200]}), "
+                    f"the same configurator built from fresh objects hands it {want[0]} (result {str(want[1])[:200]})")
+    return None
+
+def run_shared_twin(res, rng, n):
+    """a defaulted choice, an untagged look-alike of its non-default branch elsewhere in the same configurator, and a second
+    configurator that uses that look-alike object too"""
+    for _ in range(n):
+        names = rng.sample(list("abcdefg"), rng.randint(3, 4))
+        kind = rng.choice(["CcAny", "CcAny", "CcXor"])
+        dflt = rng.choice(names)
+        rest = [x for x in names if x != dflt]
+        shared = {"k": "Any" if kind == "CcAny" else rng.choice(["Any", "Xor"]), "ch": [{"k": "str", "id": x} for x in rest], "id": None}
+        ref = {"k": "ref"}
+        user = rng.choice([{"k": "Imply", "ch": [{"k": "str", "id": "x"}, ref], "id": rng.choice(["I", None])},
+                           {"k": "Any", "ch": [ref, {"k": "str", "id": "x"}], "id": rng.choice(["U", None])},
+                           {"k": "AtMost", "v": 1, "ch": [ref, {"k": "str", "id": "x"}, {"k": "str", "id": "y"}], "id": "M"}])
+        first = {"k": "Stingy", "id": "first", "ch": [{"k": kind, "ch": [{"k": "str", "id": x} for x in names], "default": [dflt], "id": rng.choice([None, "Ch"])}, user]}
+        if rng.random() < 0.5:
+            first["ch"].reverse()
+        second = {"k": "Stingy", "id": "second", "ch": [{"k": "Any", "ch": [ref, {"k": "All", "ch": [{"k": "str", "id": "z1"}, {"k": "str", "id": "z2"}], "id": None}], "id": None}]}
+        ids = names + ["x", "y", "z1", "z2"]
+        dicts = [gen_objective(rng, ids, ["zz"], wide=False) for _ in range(rng.choice([1, 2]))] + [{}]
+        c = {"first": first, "second": second, "shared": shared, "first_used_first": rng.random() < 0.8, "only_leafs": rng.random() < 0.5,
+             "prios": [[[k, v] for k, v in d.items()] for d in dicts], "script": {"kind": "raise"}}
+        res.count("shared_object_twin_pattern")
+        try:
+            bad = oracle_shared(c)
+        except Exception as e:
+            import traceback
+            bad = f"raised {type(e).__name__}: {e} {traceback.format_exc()[-400:]}"
+        res.evaluations += 1
+        if bad:
+            res.violation("oracle", f"shared: {bad}; case {json.dumps(c, ensure_ascii=False)[:500]}", {"op": "shared", "case": c})
+
+def run_shared(res, models, rng):
+    for ast, m, P, cols in models:
+        ids = [x["id"] for x in cols]
+        if not any(isinstance(r, dict) and r.get("default") for r in ast.get("ch", [])):
+            res.count("shared_skipped_no_default"); continue
+        nobj = rng.choice([1, 1, 2])
+        dicts = [gen_objective(rng, ids, ["zz"], wide=False) for _ in range(nobj)] + [{}]
+        c = {"first": ast_json(ast), "second": None, "shared": None, "first_used_first": rng.random() < 0.7, "only_leafs": rng.random() < 0.3,
+             "prios": [[[k, v] for k, v in d.items()] for d in dicts], "script": gen_script(rng, cols, len(dicts), False)}
+        # ast_json expands sharing; untagged_twin(c["first"]) reuses its rule objects, which is what the memo keys on
+        res.count("shared_object_pairs")
+        try:
+            bad = oracle_shared(c)
+        except Exception as e:
+            import traceback
+            bad = f"raised {type(e).__name__}: {e} {traceback.format_exc()[-400:]}"
+        res.evaluations += 1
+        if bad:
+            res.violation("oracle", f"shared: {bad}; configurator {m!r}", {"op": "shared", "case": c})
 
 # ----------------------------------------------------------------------------- generators
 def distinct_vector(rng, cols, in_bounds):
@@ -482,6 +570,8 @@ def run(res, tier, seed):
     run_stream(res, "solve", sm, rng, 3, oracle_solve, term_solve, SOLVE_T, "check_solve")
     cm = gen_select_models(rng, 90 if quick else 1000, res)
     run_stream(res, "select", cm, rng, 3, oracle_select, term_select, None, None)
+    run_shared(res, cm, random.Random(seed * 7919 + 15))
+    run_shared_twin(res, random.Random(seed * 7927 + 15), 40 if quick else 400)
     if not quick:
         k = exhaustive_small(res)
         res.evaluations += k
@@ -493,7 +583,7 @@ def run(res, tier, seed):
 def replay(payload):
     r = payload.get("replay", payload)
     op, c = r["op"], r["case"]
-    bad = (oracle_solve if op == "solve" else oracle_select)(c)
+    bad = oracle_shared(c) if op == "shared" else (oracle_solve if op == "solve" else oracle_select)(c)
     print(op, json.dumps(c, ensure_ascii=False)[:2000])
     print("property holds on this input" if not bad else "FAILS: " + bad)
     return 1 if bad else 0
